@@ -614,11 +614,15 @@ func (g *gen) program(semantic bool) Prog {
 	g.pTyAnn = []int{0, 0, 10, 40}[g.r.Intn(4)]
 	g.pArgExt = []int{0, 0, 0, 50}[g.r.Intn(4)]
 	g.pCpp = []int{0, 0, 0, 0, 30}[g.r.Intn(5)]
-	g.pBigDbl = []int{0, 0, 0, 0, 15}[g.r.Intn(5)]
+	g.pBigDbl = []int{0, 0, 0, 0, 30}[g.r.Intn(5)]
 	var p Prog
 	if !semantic {
 		for i, n := 0, g.r.Intn(3); i < n; i++ {
-			p.Incs = append(p.Incs, Lit{g.r.Pick([]string{`"`, "'"}), g.r.Pick([]string{"base.thrift", "dir/other.thrift", "a&b.thrift", "../x y.thrift"})})
+			inc := Lit{g.r.Pick([]string{`"`, "'"}), g.r.Pick([]string{"base.thrift", "dir/other.thrift", "a&b.thrift", "../x y.thrift"})}
+			if g.r.Chance(g.pHaz / 10) {
+				inc = Lit{"'", `q"uote.thrift`}
+			}
+			p.Incs = append(p.Incs, inc)
 		}
 	}
 	for i, n := 0, g.r.Intn(4); i < n; i++ {
